@@ -634,4 +634,460 @@ theorem scan_arc (v : Nat) (hv : v < U32) (tail : List UInt8) (d1 : Nat) (out : 
   rw [hm]
 
 
+theorem decLen_ge2 {v : Nat} (h : ¬ v < 10) : 2 ≤ decLen v := by
+  rw [decLen_big h]
+  by_cases h2 : v / 10 < 10
+  · rw [decLen_small h2]; omega
+  · rw [decLen_big h2]; omega
+
+theorem derSIDDec_length (v : Nat) : (derSIDDec v).length = decLen v := by
+  unfold derSIDDec; exact decChars_length _ _
+
+/-- end-of-number test of oidIsValid -/
+def endBad (pos n val d1 : Nat) : Prop :=
+  pos = 0 ∨ (n = 0 ∧ val > 2) ∨ (n = 1 ∧ d1 < 2 ∧ val ≥ 40) ∨ (n = 1 ∧ val > U32_MAX - 40 * d1)
+
+set_option maxRecDepth 4000 in
+/-- reading a number with the validity automaton: the characters up to the next '.' (or the end) are
+    the canonical decimal print-out of a 32-bit value that passes the end-of-number test -/
+theorem oidLoop_parse (s : List UInt8) : ∀ (val d1 pos n c0 : Nat) (ds : List UInt8),
+    pos = ds.length → (ds = [] → val = 0) → (ds ≠ [] → derSIDDec val = ds ∧ val < U32 ∧ c0 = (ds.headD 0).toNat) →
+    oidLoop s val d1 pos n c0 = true →
+    ∃ v more, derSIDDec v = ds ++ more ∧ v < U32 ∧ ¬ endBad (ds ++ more).length n v d1 ∧
+      ((s = more ∧ n + 1 ≥ 2) ∨ ∃ s', s = more ++ 46 :: s' ∧ oidLoop s' 0 (if n = 0 then v else d1) 0 (n + 1) 0 = true) := by
+  induction s with
+  | nil =>
+    intro val d1 pos n c0 ds hpos hnil hcons h
+    rw [oidLoop] at h
+    by_cases hb : pos = 0 ∨ (n = 0 ∧ val > 2) ∨ (n = 1 ∧ d1 < 2 ∧ val ≥ 40) ∨ (n = 1 ∧ val > U32_MAX - 40 * d1)
+    · rw [if_pos hb] at h; cases h
+    · rw [if_neg hb] at h
+      have hne : ds ≠ [] := by
+        intro hd; apply hb; left; rw [hpos, hd]; rfl
+      obtain ⟨hd, hv, _⟩ := hcons hne
+      refine ⟨val, [], by simpa using hd, hv, ?_, Or.inl ⟨rfl, by simpa using h⟩⟩
+      unfold endBad; rw [List.append_nil, ← hpos]; exact hb
+  | cons c t ih =>
+    intro val d1 pos n c0 ds hpos hnil hcons h
+    rw [oidLoop] at h
+    by_cases hdot : c.toNat = 46
+    · rw [if_pos hdot] at h
+      by_cases hb : pos = 0 ∨ (n = 0 ∧ val > 2) ∨ (n = 1 ∧ d1 < 2 ∧ val ≥ 40) ∨ (n = 1 ∧ val > U32_MAX - 40 * d1)
+      · rw [if_pos hb] at h; cases h
+      · rw [if_neg hb] at h
+        have hne : ds ≠ [] := by
+          intro hd; apply hb; left; rw [hpos, hd]; rfl
+        obtain ⟨hd, hv, _⟩ := hcons hne
+        have hc : c = 46 := by
+          have := UInt8.ofNat_toNat (x := c); rw [hdot] at this; exact this.symm
+        refine ⟨val, [], by simpa using hd, hv, ?_, Or.inr ⟨t, by rw [hc]; simp, h⟩⟩
+        unfold endBad; rw [List.append_nil, ← hpos]; exact hb
+    · rw [if_neg hdot] at h
+      by_cases hbad : c.toNat < 48 ∨ c.toNat > 57 ∨ (pos = 1 ∧ c0 = 48) ∨ val > U32_MAX / 10 ∨
+          (val = U32_MAX / 10 ∧ c.toNat - 48 > U32_MAX % 10)
+      · rw [if_pos hbad] at h; cases h
+      · rw [if_neg hbad] at h
+        have hval' : (val * 10 + (c.toNat - 48)) % U32 = val * 10 + (c.toNat - 48) := by omegaW
+        rw [hval'] at h
+        have hcdig : c = oct (48 + (c.toNat - 48)) := by
+          symm; apply oct_eq_of_nat; have := UInt8.toNat_lt c; omega
+        -- the new state is consistent
+        have hnew : derSIDDec (val * 10 + (c.toNat - 48)) = ds ++ [c] := by
+          by_cases hd : ds = []
+          · have hv0 := hnil hd
+            subst hd; subst hv0
+            rw [Nat.zero_mul, Nat.zero_add, derSIDDec_small (by omega)]
+            simp only [List.nil_append]
+            rw [← hcdig]
+          · obtain ⟨hdd, hv, hc0⟩ := hcons hd
+            have hval1 : 1 ≤ val := by
+              by_cases hp1 : pos = 1
+              · -- single digit so far, not '0'
+                have hlen : (derSIDDec val).length = 1 := by rw [hdd, ← hpos, hp1]
+                rw [derSIDDec_length] at hlen
+                have hv10 : val < 10 := by
+                  apply Classical.byContradiction; intro hc; have := decLen_ge2 hc; omega
+                rw [derSIDDec_small hv10] at hdd
+                have hc048 : c0 ≠ 48 := fun hc => hbad (Or.inr (Or.inr (Or.inl ⟨hp1, hc⟩)))
+                rw [← hdd] at hc0
+                simp only [List.headD_cons] at hc0
+                rw [digit_toNat val hv10] at hc0
+                omega
+              · have hlen : (derSIDDec val).length = pos := by rw [hdd, ← hpos]
+                rw [derSIDDec_length] at hlen
+                have hp0 : pos ≠ 0 := by
+                  intro hz; apply hd; apply List.eq_nil_of_length_eq_zero; omega
+                apply Classical.byContradiction; intro hc
+                have hv0 : val = 0 := by omega
+                rw [hv0, decLen_small (by omega)] at hlen
+                omega
+            rw [derSIDDec_big (by omega)]
+            have e1 : (val * 10 + (c.toNat - 48)) / 10 = val := by omega
+            have e2 : (val * 10 + (c.toNat - 48)) % 10 = c.toNat - 48 := by omega
+            rw [e1, e2, hdd, ← hcdig]
+        obtain ⟨v, more, hv1, hv2, hv3, hv4⟩ := ih (val * 10 + (c.toNat - 48)) d1 (pos + 1) n (if pos = 0 then c.toNat else c0) (ds ++ [c])
+          (by simp [hpos]) (by simp)
+          (fun _ => ⟨hnew, by omegaW, by
+            by_cases hd : ds = []
+            · subst hd; simp at hpos; simp [hpos]
+            · obtain ⟨_, _, hc0⟩ := hcons hd
+              have hp0 : pos ≠ 0 := by
+                intro hz; apply hd; apply List.eq_nil_of_length_eq_zero; omega
+              rw [if_neg hp0, hc0]
+              cases ds with
+              | nil => exact absurd rfl hd
+              | cons a tl => simp⟩) h
+        refine ⟨v, c :: more, by rw [hv1]; simp, hv2, by simpa using hv3, ?_⟩
+        rcases hv4 with ⟨he, hn⟩ | ⟨s', he, hl⟩
+        · exact Or.inl ⟨by rw [he], hn⟩
+        · exact Or.inr ⟨s', by rw [he]; simp, hl⟩
+
+
+/-- ".v1.v2…" -/
+def renderTail : List Nat → List UInt8
+  | [] => []
+  | v :: vs => 46 :: derSIDDec v ++ renderTail vs
+
+/-- the arcs v1, v2, … encoded one after the other -/
+def encTail : List Nat → List UInt8
+  | [] => []
+  | v :: vs => derSIDEnc v ++ encTail vs
+
+theorem enc_tail (vs : List Nat) (hvs : ∀ w ∈ vs, w < U32) (dd prev : Nat) (acc : List UInt8) :
+    oidEncLoop (renderTail vs) dd prev acc = acc ++ derSIDEnc (adj dd prev) ++ encTail vs := by
+  induction vs generalizing dd prev acc with
+  | nil => rw [renderTail, oidEncLoop_nil]; simp [encTail]
+  | cons v vs ih =>
+    rw [renderTail, List.cons_append, oidEncLoop_dot, oidEncLoop_digits v (hvs v (by simp)), ih (fun w hw => hvs w (by simp [hw]))]
+    simp [adj, encTail]
+
+theorem scan_tail (vs : List Nat) (hvs : ∀ w ∈ vs, w < U32) (out : List UInt8) :
+    oidScan (encTail vs) 0 0 out = .ok (0, out ++ renderTail vs) := by
+  induction vs generalizing out with
+  | nil => simp [encTail, renderTail, oidScan]
+  | cons v vs ih =>
+    rw [encTail, scan_arc v (hvs v (by simp)), if_neg (by omega), ih (fun w hw => hvs w (by simp [hw]))]
+    simp [renderTail]
+
+/-- after the first two numbers the automaton accepts exactly ".v.v…" with 32-bit canonical decimals -/
+theorem parse_tail : ∀ (k : Nat) (s : List UInt8) (d1 n : Nat), s.length ≤ k → n ≥ 2 →
+    oidLoop s 0 d1 0 n 0 = true → ∃ v vs, v < U32 ∧ (∀ w ∈ vs, w < U32) ∧ s = derSIDDec v ++ renderTail vs := by
+  intro k
+  induction k with
+  | zero =>
+    intro s d1 n hl hn h
+    have : s = [] := List.eq_nil_of_length_eq_zero (by omega)
+    subst this
+    rw [oidLoop] at h; simp at h
+  | succ k ih =>
+    intro s d1 n hl hn h
+    obtain ⟨v, more, hv1, hv2, _, hv4⟩ := oidLoop_parse s 0 d1 0 n 0 [] rfl (fun _ => rfl) (fun h => absurd rfl h) h
+    simp only [List.nil_append] at hv1
+    rcases hv4 with ⟨he, _⟩ | ⟨s', he, hl'⟩
+    · exact ⟨v, [], hv2, by simp, by rw [he, hv1]; simp [renderTail]⟩
+    · have hlen : s'.length ≤ k := by
+        have := congrArg List.length he
+        simp at this; omega
+      rw [if_neg (by omega)] at hl'
+      obtain ⟨v', vs, hv', hvs, hs'⟩ := ih s' d1 (n + 1) hlen (by omega) hl'
+      refine ⟨v, v' :: vs, hv2, ?_, ?_⟩
+      · intro w hw
+        rcases List.mem_cons.mp hw with h | h
+        · rw [h]; exact hv'
+        · exact hvs w h
+      · rw [he, ← hv1, hs']; simp [renderTail]
+
+/-- a valid OID string is "d.v" followed by ".w" for 32-bit canonical decimals, d ≤ 2,
+    v < 40 unless d = 2, and 40·d + v fits 32 bits -/
+theorem oidIsValid_shape (s : List UInt8) (h : oidIsValid s = true) :
+    ∃ d v vs, d ≤ 2 ∧ (d < 2 → v < 40) ∧ v + 40 * d < U32 ∧ (∀ w ∈ vs, w < U32) ∧
+      s = oct (48 + d) :: 46 :: derSIDDec v ++ renderTail vs := by
+  unfold oidIsValid at h
+  obtain ⟨d, more, hd1, hd2, hd3, hd4⟩ := oidLoop_parse s 0 0 0 0 0 [] rfl (fun _ => rfl) (fun h => absurd rfl h) h
+  simp only [List.nil_append] at hd1 hd3
+  unfold endBad at hd3
+  have hdle : d ≤ 2 := by
+    apply Classical.byContradiction; intro hc; exact hd3 (Or.inr (Or.inl ⟨rfl, by omega⟩))
+  rcases hd4 with ⟨_, hn⟩ | ⟨s', he, hl⟩
+  · omega
+  · simp only [if_true] at hl
+    obtain ⟨v, more2, hv1, hv2, hv3, hv4⟩ := oidLoop_parse s' 0 d 0 1 0 [] rfl (fun _ => rfl) (fun h => absurd rfl h) hl
+    simp only [List.nil_append] at hv1 hv3
+    unfold endBad at hv3
+    have hc1 : d < 2 → v < 40 := by
+      intro hd; apply Classical.byContradiction; intro hc
+      exact hv3 (Or.inr (Or.inr (Or.inl ⟨rfl, hd, by omega⟩)))
+    have hc2 : v + 40 * d < U32 := by
+      apply Classical.byContradiction; intro hc
+      exact hv3 (Or.inr (Or.inr (Or.inr ⟨rfl, by omegaW⟩)))
+    have hdd : more = [oct (48 + d)] := by rw [← hd1, derSIDDec_small (by omega)]
+    rcases hv4 with ⟨he2, _⟩ | ⟨s'', he2, hl2⟩
+    · refine ⟨d, v, [], hdle, hc1, hc2, by simp, ?_⟩
+      rw [he, hdd, he2, ← hv1]; simp [renderTail]
+    · rw [if_neg (by omega)] at hl2
+      obtain ⟨v', vs, hv', hvs, hs''⟩ := parse_tail s''.length s'' d 2 (Nat.le_refl _) (by omega) hl2
+      refine ⟨d, v, v' :: vs, hdle, hc1, hc2, ?_, ?_⟩
+      · intro w hw
+        rcases List.mem_cons.mp hw with h | h
+        · rw [h]; exact hv'
+        · exact hvs w h
+      · rw [he, hdd, he2, ← hv1, hs'']; simp [renderTail]
+
+
+theorem derSIDEnc_snoc (v : Nat) : ∃ hi, derSIDEnc v = hi ++ [oct (v % 128)] := by
+  unfold derSIDEnc; exact ⟨_, rfl⟩
+
+theorem encAll_last (x : Nat) (vs : List Nat) :
+    ∃ init last, derSIDEnc x ++ encTail vs = init ++ [last] ∧ last.toNat < 128 := by
+  induction vs generalizing x with
+  | nil =>
+    obtain ⟨hi, h⟩ := derSIDEnc_snoc x
+    exact ⟨hi, oct (x % 128), by simp [encTail, h], by rw [toNat_oct]; omega⟩
+  | cons v vs ih =>
+    obtain ⟨init, last, h, hl⟩ := ih v
+    exact ⟨derSIDEnc x ++ init, last, by rw [encTail, h]; simp, hl⟩
+
+set_option maxRecDepth 4000 in
+/-- ROUND TRIP (OID): every valid OID string decodes back from its code, whatever follows -/
+theorem derOID_roundtrip' (s : List UInt8) (hv : oidIsValid s = true) (rest : List UInt8)
+    (hlen : ∀ V : List UInt8, derOIDEnc s = derEnc 6 V → 13 + V.length + rest.length < W) :
+    ∃ e, derOIDEnc s = .ok e ∧ derOIDDec (e ++ rest) = .ok (s, e.length) := by
+  obtain ⟨d, v, vs, hd2, hd40, hX, hvs, hs⟩ := oidIsValid_shape s hv
+  have hvlt : v < U32 := by omega
+  -- the encoder
+  have henc : derOIDEnc s = derEnc 6 (derSIDEnc (v + 40 * d) ++ encTail vs) := by
+    unfold derOIDEnc
+    rw [hv]; simp only [Bool.not_true, Bool.false_eq_true, if_false]
+    rw [hs, List.cons_append, List.cons_append]; simp only []
+    have hdg : (oct (48 + d)).toNat - 48 = d := by rw [digit_toNat d (by omega)]; omega
+    rw [hdg, oidEncLoop_digits v hvlt, enc_tail vs hvs]
+    have : adj d v = v + 40 * d := by unfold adj; rw [if_pos (by omega)]; omegaW
+    rw [this]; simp
+  generalize hV : derSIDEnc (v + 40 * d) ++ encTail vs = V at henc
+  have hl := hlen V henc
+  obtain ⟨e, he, hdec, hsl⟩ := derEnc_roundtrip' 6 V (by decide) (by decide) rest hl
+  refine ⟨e, by rw [henc]; exact he, ?_⟩
+  have hel : V.length ≤ e.length := by
+    unfold derEnc at he; rw [derTEnc_ok 6 (by decide)] at he; cases he; simp; omega
+  obtain ⟨init, last, hVl, hlast⟩ := encAll_last (v + 40 * d) vs
+  rw [hV] at hVl
+  have hVlen : 1 ≤ V.length := by rw [hVl]; simp
+  generalize hoff : e.length - V.length = off at *
+  unfold derOIDDec
+  rw [derDec2_of_derDec _ _ _ _ _ hdec]; simp only []
+  -- the loop
+  have hscan := oidDecLoop_eq_scan (e ++ rest) off V.length (by simp; omega) V.length 0 0 3 [] (by omega)
+  rw [Nat.add_zero, Nat.sub_zero, hsl] at hscan
+  rw [hscan, ← hV, scan_arc (v + 40 * d) hX, if_pos rfl]
+  have hsplit : (if v + 40 * d < 40 then 0 else if v + 40 * d < 80 then 1 else 2) = d ∧
+      (if v + 40 * d < 40 then v + 40 * d else if v + 40 * d < 80 then v + 40 * d - 40 else v + 40 * d - 80) = v := by
+    constructor <;> (split <;> (try split) <;> omega)
+  rw [hsplit.1, hsplit.2, scan_tail vs hvs]; simp only []
+  rw [if_neg (by omega)]
+  have hrl := slice_rd _ _ off _ (V.length - 1) hsl (by omega)
+  rw [hV, hrl]; simp only []
+  have hlastV : (V[V.length - 1]'(by omega)) = last := by
+    simp only [hVl]
+    simp
+  rw [hlastV, if_neg (by omega)]
+  congr 2
+  rw [hs, derSIDDec_small (by omega : d < 10)]
+  simp
+
+
+/-! ### derOIDDec2 -/
+
+theorem rdS_lt {s : List UInt8} {i : Nat} (h : i < s.length) : rdS s i = .ok s[i].toNat := by
+  unfold rdS; rw [if_pos h, rd_of_lt h]
+
+/-- the digit comparison of derSIDDec2: success means the next n characters are the n digits of t -/
+theorem sidCmpLoop_spec (oid : List UInt8) (o : Nat) : ∀ (n t : Nat), o + n ≤ oid.length →
+    sidCmpLoop oid o t n = .ok () → (oid.drop o).take n = decChars n t := by
+  intro n
+  induction n with
+  | zero => intro t _ _; simp [decChars]
+  | succ n ih =>
+    intro t hl h
+    unfold sidCmpLoop at h
+    have hi : o + n < oid.length := by omega
+    rw [rdS_lt hi] at h; simp only [] at h
+    by_cases hc : oid[o + n].toNat ≠ 48 + t % 10
+    · rw [if_pos hc] at h; cases h
+    · rw [if_neg hc] at h
+      have := ih (t / 10) (by omega) h
+      rw [decChars, ← this, List.take_add_one]
+      congr 1
+      rw [List.getElem?_drop, List.getElem?_eq_getElem hi]
+      simp only [Option.toList_some, List.cons.injEq, and_true]
+      symm; apply oct_eq_of_nat
+      have := UInt8.toNat_lt oid[o + n]
+      omega
+
+theorem derSIDDec2_spec (val : Nat) (oid : List UInt8) (o k : Nat) (h : derSIDDec2 val oid o = .ok k) :
+    k = decLen val ∧ o + k ≤ oid.length ∧ (oid.drop o).take k = derSIDDec val := by
+  unfold derSIDDec2 at h
+  simp only [] at h
+  by_cases hc : oid.length - o < decLen val
+  · rw [if_pos hc] at h; cases h
+  · rw [if_neg hc] at h
+    have hl1 : 1 ≤ decLen val := by
+      by_cases h : val < 10
+      · rw [decLen_small h]; omega
+      · rw [decLen_big h]; omega
+    rcases sidCmpLoop_cases oid o val (decLen val) (by omega) with e | e
+    · rw [e] at h; cases h
+    · rw [e] at h; cases h
+      exact ⟨rfl, by omega, sidCmpLoop_spec oid o _ val (by omega) e⟩
+
+theorem take_append_slice (oid : List UInt8) (o k : Nat) : oid.take o ++ (oid.drop o).take k = oid.take (o + k) := by
+  rw [List.take_add]
+
+theorem rdS_dot (oid : List UInt8) (o ch : Nat) (h : rdS oid o = .ok ch) (hc : ch = 46) :
+    o < oid.length ∧ oid.take o ++ [46] = oid.take (o + 1) := by
+  unfold rdS at h
+  by_cases hi : o < oid.length
+  · rw [if_pos hi, rd_of_lt hi] at h
+    injection h with h
+    refine ⟨hi, ?_⟩
+    rw [List.take_add_one, List.getElem?_eq_getElem hi]
+    simp only [Option.toList_some, List.append_cancel_left_eq, List.cons.injEq, and_true]
+    have := UInt8.ofNat_toNat (x := oid[o]); rw [h, hc] at this; exact this
+  · rw [if_neg hi] at h
+    split at h
+    · injection h with h; omega
+    · cases h
+
+set_option maxRecDepth 4000 in
+/-- derOIDDec2 follows derOIDDec: it succeeds only along the string derOIDDec would write -/
+theorem oidDec2Loop_follows (der : List UInt8) (off l : Nat) (oid : List UInt8) :
+    ∀ n pos val d1 o d1f of, n = l - pos → o ≤ oid.length → (d1 = 3 ∨ d1 = 0) →
+    oidDec2Loop der off l pos val d1 oid o = .ok (d1f, of) →
+    oidDecLoop der off l pos val d1 (oid.take o) = .ok (d1f, oid.take of) ∧ of ≤ oid.length := by
+  intro n
+  induction n with
+  | zero =>
+    intro pos val d1 o d1f of hn ho hd h
+    rw [oidDec2Loop, dif_neg (by omega)] at h
+    cases h
+    rw [oidDecLoop, dif_neg (by omega)]
+    exact ⟨rfl, ho⟩
+  | succ n ih =>
+    intro pos val d1 o d1f of hn ho hd h
+    rw [oidDec2Loop, dif_pos (by omega)] at h
+    rw [oidDecLoop, dif_pos (by omega)]
+    by_cases h1 : val / 33554432 ≠ 0
+    · rw [if_pos h1] at h; cases h
+    · rw [if_neg h1] at h ⊢
+      cases hr : rd der (off + pos) with
+      | ok b =>
+        rw [hr] at h; simp only [] at h ⊢
+        by_cases h2 : val = 0 ∧ b = 128
+        · rw [if_pos h2] at h; cases h
+        · rw [if_neg h2] at h ⊢
+          by_cases h3 : b / 128 = 0
+          · rw [if_pos h3] at h ⊢
+            generalize hX : (val * 128 + b % 128) % U32 = X at h ⊢
+            by_cases h4 : d1 = 3
+            · subst h4
+              simp only [if_true] at h ⊢
+              cases hs1 : derSIDDec2 (if X < 40 then 0 else if X < 80 then 1 else 2) oid o with
+              | ok k =>
+                rw [hs1] at h; simp only [] at h
+                obtain ⟨_, hk, hsl⟩ := derSIDDec2_spec _ oid o k hs1
+                cases hrs : rdS oid (o + k) with
+                | ok ch =>
+                  rw [hrs] at h; simp only [] at h
+                  by_cases h5 : ch ≠ 46
+                  · rw [if_pos h5] at h; cases h
+                  · rw [if_neg h5] at h
+                    obtain ⟨hlt, hdot⟩ := rdS_dot oid (o + k) ch hrs (by omega)
+                    cases hs2 : derSIDDec2 (if X < 40 then X else if X < 80 then X - 40 else X - 80) oid (o + k + 1) with
+                    | ok k2 =>
+                      rw [hs2] at h; simp only [] at h
+                      obtain ⟨_, hk2, hsl2⟩ := derSIDDec2_spec _ oid _ k2 hs2
+                      have := ih (pos + 1) 0 0 (o + k + 1 + k2) d1f of (by omega) hk2 (Or.inr rfl) h
+                      rw [← take_append_slice oid (o + k + 1) k2, hsl2, ← hdot, ← take_append_slice oid o k, hsl] at this
+                      simpa using this
+                    | err => rw [hs2] at h; cases h
+                    | oob => rw [hs2] at h; cases h
+                | err => rw [hrs] at h; cases h
+                | oob => rw [hrs] at h; cases h
+              | err => rw [hs1] at h; cases h
+              | oob => rw [hs1] at h; cases h
+            · have hd0 : d1 = 0 := by omega
+              subst hd0
+              simp only [h4, if_false] at h ⊢
+              cases hrs : rdS oid o with
+              | ok ch =>
+                rw [hrs] at h; simp only [] at h
+                by_cases h5 : ch ≠ 46
+                · rw [if_pos h5] at h; cases h
+                · rw [if_neg h5] at h
+                  obtain ⟨hlt, hdot⟩ := rdS_dot oid o ch hrs (by omega)
+                  cases hs2 : derSIDDec2 X oid (o + 1) with
+                  | ok k2 =>
+                    rw [hs2] at h; simp only [] at h
+                    obtain ⟨_, hk2, hsl2⟩ := derSIDDec2_spec _ oid _ k2 hs2
+                    have := ih (pos + 1) 0 0 (o + 1 + k2) d1f of (by omega) hk2 (Or.inr rfl) h
+                    rw [← take_append_slice oid (o + 1) k2, hsl2, ← hdot] at this
+                    simpa using this
+                  | err => rw [hs2] at h; cases h
+                  | oob => rw [hs2] at h; cases h
+              | err => rw [hrs] at h; cases h
+              | oob => rw [hrs] at h; cases h
+          · rw [if_neg h3] at h ⊢
+            exact ih (pos + 1) _ d1 o d1f of (by omega) ho hd h
+      | err => rw [hr] at h; cases h
+      | oob => rw [hr] at h; cases h
+
+
+/-- derOIDDec2 accepts (der, oid) only if derOIDDec decodes der to exactly the string oid -/
+theorem derOIDDec2_eq_dec (der oid : List UInt8) (hlen : der.length < W) (hstr : ∀ b ∈ oid, b ≠ 0) (c : Nat)
+    (h : derOIDDec2 der oid = .ok c) : derOIDDec der = .ok (oid, c) := by
+  unfold derOIDDec2 at h
+  unfold derOIDDec
+  rcases derDec2_cases der 6 hlen with e | ⟨off, l, c', e, _, _, _, hc, hcl⟩
+  · rw [e] at h; cases h
+  · rw [e] at h ⊢; simp only [] at h ⊢
+    cases hl2 : oidDec2Loop der off l 0 0 3 oid 0 with
+    | ok r =>
+      obtain ⟨d1, o⟩ := r
+      rw [hl2] at h; simp only [] at h
+      obtain ⟨hfol, ho⟩ := oidDec2Loop_follows der off l oid l 0 0 3 0 d1 o (by omega) (by omega) (Or.inl rfl) hl2
+      rw [List.take_zero] at hfol
+      rw [hfol]; simp only []
+      by_cases hd : d1 = 3
+      · rw [if_pos hd] at h; cases h
+      · rw [if_neg hd] at h ⊢
+        cases hr : rd der (off + (l - 1)) with
+        | ok last =>
+          rw [hr] at h; simp only [] at h ⊢
+          by_cases hla : last / 128 ≠ 0
+          · rw [if_pos hla] at h; cases h
+          · rw [if_neg hla] at h ⊢
+            cases hrs : rdS oid o with
+            | ok ch =>
+              rw [hrs] at h; simp only [] at h
+              by_cases hch : ch ≠ 0
+              · rw [if_pos hch] at h; cases h
+              · rw [if_neg hch] at h; cases h
+                -- the terminating zero: o = |oid|
+                have hoe : o = oid.length := by
+                  unfold rdS at hrs
+                  by_cases hi : o < oid.length
+                  · rw [if_pos hi, rd_of_lt hi] at hrs
+                    injection hrs with hrs
+                    exfalso
+                    have hz : oid[o].toNat = 0 := by omega
+                    exact hstr oid[o] (List.getElem_mem hi) (toNat_zero_eq _ hz)
+                  · omega
+                rw [hoe, List.take_length]
+            | err => rw [hrs] at h; cases h
+            | oob => rw [hrs] at h; cases h
+        | err => rw [hr] at h; cases h
+        | oob => rw [hr] at h; cases h
+    | err => rw [hl2] at h; cases h
+    | oob => rw [hl2] at h; cases h
+
+
 end Bee2V.C08
